@@ -32,7 +32,17 @@ RULE = ('for every class of the live registry: Fits assignments (all-zero, all-m
         'side of the registry: for EVERY registered class registry[name], registry[(netfn, cmd, group)], '
         'create_message, create_request_by_name / create_response_by_name on its name stem (FooReq <-> FooRsp), '
         'create_response_message for requests, and the key set of the dict are observed and judged '
-        '(Props/C01.registry_lookup over the regenerated Gen/RegistryLookup.lean).')
+        '(Props/C01.registry_lookup over the regenerated Gen/RegistryLookup.lean).  INSTANCES ARE INDEPENDENT (real code '
+        'only): for every class with fields three instances are constructed and ONE of them (the first / the last '
+        'created; in the thorough tier also the middle one) is changed in 12 recorded stages - every array-valued field '
+        'in place (item assignment at every position, extend, reverse), every member of every BitWrapper, plain '
+        'assignment of a whole random / max / boundary assignment, decode_message into it, and the in-place stages '
+        'again after the assignment and after the decode; after every stage the two untouched instances must read '
+        '(field by field, by value) and encode (encode_message, pack_message) exactly as before the first stage, an '
+        'instance constructed NOW exactly like one constructed before it, and no mutable attribute value of the '
+        'changed instance may be the very same object as an attribute value of another instance or a member of a '
+        'class-level field descriptor (identity, also on the fresh instances before any change).  Distinct by (class, '
+        'editor, recorded stages).')
 ASSUMPTIONS = [
     'model of msgs/message.py + utils.ByteBuffer is hand-written (lean/PyIpmi/Model/Codec.lean) and tied by this correspondence run',
     'layouts are regenerated from the live registry each run (Gen/Registry.lean); field classes whose encode/decode/create differ from the known base classes abort generation',
@@ -44,6 +54,11 @@ ASSUMPTIONS = [
     'the model is a function of the field values only (a message object has no other state): histories on one real '
     'object are compared step by step with the model applied to the values the caller put last; a conditional field '
     'that is not on the wire has no value to compare after decode_message into a used object',
+    'the Lean codec model is value-based: a message is the list of its field values and there is no aliasing between '
+    'two messages or between a message and its class in it, so "the field values of one instance are its own" holds '
+    'in the model by construction and is not a theorem; whether two real objects share a mutable value (array, '
+    'BitWrapper) with each other or with the class-level __fields__ descriptors is judged on the real code only, by '
+    'the instances stream (identity of attribute values + observation of the untouched instances after in-place edits)',
 ]
 TRUSTED = ['harness/translate/registry.py', 'harness/translate/registry_lookup.py', 'harness/codec_common.py']
 
@@ -225,6 +240,8 @@ def _h_real(obj, fields, op):
         a.pop()
     elif k == 'insert':
         a.insert(op[2], op[3])
+    elif k == 'reverse':
+        a.reverse()
     else:
         raise ValueError(op)
 
@@ -256,6 +273,8 @@ def _h_canon(vals, fields, op):
         a.pop()
     elif k == 'insert':
         a.insert(op[2], op[3])
+    elif k == 'reverse':
+        a.reverse()
     else:
         raise ValueError(op)
     vals[i] = ('arr', bytes(a))
@@ -409,7 +428,12 @@ def _h_run(cls, fields, init, steps):
     for st in steps:
         err = None
         for op in st['ops']:
-            vals = _h_canon(vals, fields, op)
+            try:
+                vals = _h_canon(vals, fields, op)
+            except (IndexError, KeyError, TypeError):
+                # the recorded ops do not fit the values any more: the process state the history was generated in is
+                # not the one it runs in (a tree on which instances share state; the instances stream reports that)
+                return out, obj
             if err is None:
                 try:
                     _h_real(obj, fields, op)
@@ -587,6 +611,244 @@ def _run_histories(ctx, drv, rng, idx, cls, info, cases):
             for op in st['ops']:
                 ctx.count('history-op:' + op[0])
         _judge_history_step(ctx, cls, info, case, rec, m)
+
+
+# ---------------------------------------------------------------------------------------
+# instances are independent: the field values of one message object are its own
+#
+# Three instances of a class are created; ONE of them (the editor: the first / the last created, in the thorough
+# tier also the middle one) is changed stage by stage in every way a caller can change a field value without
+# touching another object - array fields IN PLACE (item assignment, extend, reverse), BitWrapper members, plain
+# attribute assignment, decode_message into it - and after every stage
+#   * the other two instances must read and encode exactly as before the first stage,
+#   * an instance constructed NOW must read and encode exactly as one constructed before the first stage,
+#   * no mutable attribute value of the editor may be the very same object as an attribute value of another
+#     instance or as a member of a class-level field descriptor (__fields__ is shared by all instances).
+# A stage is a JSON list of the ops of the history streams (+ ['reverse', i]), generated while executing (the ops
+# depend on what the editor holds) and recorded, so that a replay needs nothing but the case.
+# The Lean codec model is a function of field VALUES; aliasing between Python objects has no counterpart there:
+# this stream is judged on the real code only.
+# ---------------------------------------------------------------------------------------
+I_PLAN = ('item', 'extend', 'reverse', 'bits', 'assign', 'item', 'reverse', 'bits', 'decode', 'item', 'extend', 'bits')
+I_GROUP = {'item': 'inplace-edit', 'extend': 'inplace-edit', 'reverse': 'inplace-edit', 'bits': 'inplace-edit',
+           'assign': 'assignment', 'decode': 'decode'}
+_IMMUTABLE = (int, float, complex, str, bytes, bool, type(None), frozenset, type)
+
+
+def _immutable(x):
+    return isinstance(x, _IMMUTABLE) or (isinstance(x, tuple) and all(_immutable(y) for y in x))
+
+
+def _i_tok(x, f):
+    if x is None:
+        return 'n'
+    if f.prim[0] == 'bits' and hasattr(x, '_bits'):
+        return 'b' + ','.join(str(getattr(x, bn, '?')) for bn in f.prim[3])
+    if isinstance(x, int):
+        return 'i%d' % x
+    if isinstance(x, array):
+        return 'a' + lean.hexs(bytes(bytearray(x)))
+    if isinstance(x, str):
+        return 's' + repr(x)
+    if isinstance(x, (bytes, bytearray)):
+        return 'y' + lean.hexs(bytes(x))
+    return '%s:%s' % (type(x).__name__, repr(x)[:40])
+
+
+def _i_observe(obj, fields):
+    """what an instance reads and encodes like, by VALUE"""
+    enc, pk, _ = _h_observe(obj, fields, False)
+    return {'values': [_i_tok(getattr(obj, f.name, 'missing'), f) for f in fields],
+            'encode': _show_out(enc), 'pack': _show_out(pk)}
+
+
+def _descriptors(cls):
+    out = []
+    for d in getattr(cls, '__fields__', ()) or ():
+        seen = 0
+        while d is not None and seen < 4:
+            out.append(d)
+            d = vars(d).get('_field') if hasattr(d, '__dict__') else None
+            seen += 1
+    return out
+
+
+def _i_shared(objs, r, cls):
+    """mutable attribute values of objs[r] that are the same OBJECT as an attribute value of another instance or
+    as a member of a class-level field descriptor -> ['key is the object instance 1 holds as key', ...]"""
+    out = []
+    mine = dict((k, v) for k, v in vars(objs[r]).items() if not _immutable(v))
+    for k, v in sorted(mine.items()):
+        for j, o in enumerate(objs):
+            if j != r:
+                for k2, v2 in vars(o).items():
+                    if v2 is v:
+                        out.append('%s is the very object instance %d holds as %s (%s)' % (k, j, k2, type(v).__name__))
+        for d in _descriptors(cls):
+            for k2, v2 in (vars(d).items() if hasattr(d, '__dict__') else ()):
+                if v2 is v:
+                    out.append('%s is the very object the class-level descriptor %s(%r) holds as %s (%s)' % (
+                        k, type(d).__name__, getattr(d, 'name', '?'), k2, type(v).__name__))
+    return out
+
+
+def _i_gen_stage(rng, kind, cls, obj, fields):
+    ops = []
+    if kind == 'assign':
+        new = cc.assignment(fields, rng, rng.choice(('random', 'max', 'boundary')))
+        for i, f in enumerate(fields):
+            if new[i][0] == 'bits':
+                if getattr(obj, f.name, None) is not None:
+                    ops += [['bit', i, k, v] for k, v in enumerate(new[i][1]) if f.prim[2][k] > 0]
+            elif f.prim[0] != 'cc':
+                ops.append(['set', i, cc.show(new[i])])
+        return ops
+    if kind == 'decode':
+        new = cc.assignment(fields, rng, rng.choice(('boundary', 'random', 'max')))
+        if cc.encode_real(cls, fields, new)[0] == 'ok':
+            ops.append(['decode', [cc.show(v) for v in new]])
+        return ops
+    for i, f in enumerate(fields):
+        x = getattr(obj, f.name, None)
+        if kind == 'bits':
+            if f.prim[0] == 'bits' and x is not None and hasattr(x, '_bits'):
+                for k, w in enumerate(f.prim[2]):
+                    if w > 0:
+                        cur = getattr(x, f.prim[3][k], 0)
+                        top = (1 << w) - 1
+                        ops.append(['bit', i, k, top - ((cur if isinstance(cur, int) else 0) & top)])
+            continue
+        if not (isinstance(x, array) and x.typecode == 'B'):
+            continue
+        if kind == 'item':
+            pos = list(range(len(x))) if len(x) <= 8 else sorted(set([0, len(x) - 1] + rng.sample(range(len(x)), 6)))
+            for p in pos:
+                ops.append(['item', i, p, x[p] ^ (0xff if p == 0 else rng.randrange(1, 256))])
+        elif kind == 'extend':
+            ops.append(['extend', i, lean.hexs(bytes(rng.randrange(256) for _ in range(rng.choice((1, 2, 3)))))])
+        elif kind == 'reverse' and len(x) >= 2:
+            if list(x) == list(reversed(x)):
+                ops.append(['item', i, 0, x[0] ^ 0x5a])
+            ops.append(['reverse', i])
+    return ops
+
+
+def _i_exec(cls, fields, role, stages=None, rng=None):
+    """run (and, when `stages` is None, generate) the scenario.  -> dict(stages, fresh, before, steps) where
+    steps[k] = {'kind', 'ops', 'errors', 'others': [observation of every non-editor], 'later': observation of an
+    instance constructed after stage k, 'shared': [...]}; index 0 of `steps` is the state before any edit."""
+    objs = [cls(), cls(), cls()]
+    fresh = [_i_observe(o, fields) for o in objs]
+    others = [j for j in range(3) if j != role]
+    steps = [{'kind': 'fresh', 'ops': [], 'errors': [], 'others': [fresh[j] for j in others], 'later': fresh[role],
+              'shared': _i_shared(objs, role, cls)}]
+    out_stages = []
+    plan = [st['kind'] for st in stages] if stages is not None else list(I_PLAN)
+    from pyipmi.msgs.message import encode_message
+    for n, kind in enumerate(plan):
+        try:
+            encode_message(objs[role])      # the encode BEFORE the change is what fills a cache, if there is one
+        except Exception:  # noqa
+            pass
+        ops = stages[n]['ops'] if stages is not None else _i_gen_stage(rng, kind, cls, objs[role], fields)
+        if not ops:
+            continue
+        errors = []
+        for op in ops:
+            try:
+                _h_real(objs[role], fields, op)
+            except _Abort:
+                errors.append('fresh encoder fails on the values of the decode step')
+            except Exception as e:  # noqa  (the editor itself is judged by the history streams)
+                errors.append('%s in %s' % (type(e).__name__, op[0]))
+        later = cls()
+        out_stages.append({'kind': kind, 'ops': ops})
+        steps.append({'kind': kind, 'ops': ops, 'errors': errors, 'others': [_i_observe(objs[j], fields) for j in others],
+                      'later': _i_observe(later, fields), 'shared': _i_shared(objs + [later], role, cls)})
+    return {'stages': out_stages, 'fresh': fresh, 'others': others, 'steps': steps}
+
+
+def _obs_diff(a, b, fields):
+    for k in ('values', 'encode', 'pack'):
+        if a[k] != b[k]:
+            if k == 'values':
+                bad = [i for i in range(len(fields)) if a[k][i] != b[k][i]]
+                return ('field values %s' % [fields[i].name for i in bad], [a[k][i] for i in bad], [b[k][i] for i in bad])
+            return ('%s_message' % k, a[k], b[k])
+    return None
+
+
+def _i_judge(ctx, cls, info, role, res, verbose=False):
+    """first finding of the scenario (later stages only repeat it)"""
+    fields, name = info['fields'], info['name']
+    base = {'class': name, 'op': 'instances', 'role': role, 'layout': _layout(fields)}
+    fresh = res['fresh']
+    shared_reported = False
+    if verbose:
+        print('  three instances; instance %d is the one that is changed' % role)
+        print('  fresh instance : values %s -> %s' % (' '.join(fresh[0]['values']), fresh[0]['encode']))
+    for j in (1, 2):
+        d = _obs_diff(fresh[0], fresh[j], fields)
+        if d is not None:
+            ctx.violate('C01:instances:fresh-instances-differ:%s' % name,
+                        'two instances of %s constructed one after the other differ in %s' % (name, d[0]),
+                        dict(base, stages=[]), expected=d[1], observed=d[2])
+            return False
+    for k, st in enumerate(res['steps']):
+        case = dict(base, stages=res['stages'][:k])
+        if verbose and k:
+            print('  stage %d %-8s %s%s' % (k, st['kind'], ' ; '.join(
+                ' '.join(' '.join(x) if isinstance(x, list) else str(x) for x in op) for op in st['ops'])[:200],
+                '  (%s)' % ', '.join(st['errors']) if st['errors'] else ''))
+            for j, o in zip(res['others'], st['others']):
+                print('      instance %d (untouched)     : values %s -> %s' % (j, ' '.join(o['values']), o['encode']))
+            print('      instance constructed now   : values %s -> %s' % (' '.join(st['later']['values']), st['later']['encode']))
+        if verbose:
+            for x in st['shared']:
+                print('      SHARED: ' + x)
+        if st['shared'] and k == 0:
+            shared_reported = True
+            ctx.violate('C01:instances:shared-object:%s' % name,
+                        'a fresh instance of %s: %s - a change made to it in place is a change of both' % (name, st['shared'][0]),
+                        case, expected='every instance holds field value objects of its own', observed=st['shared'][:4])
+            continue            # go on: the stages show what the shared object does to the other instances
+        for j, o in zip(res['others'], st['others']):
+            d = _obs_diff(fresh[j], o, fields)
+            if d is not None:
+                ctx.violate('C01:instances:%s-leaks:%s' % (I_GROUP.get(st['kind'], st['kind']), name),
+                            'changing instance %d of %s (%s) changes %s of instance %d, which was constructed %s and never '
+                            'touched' % (role, name, st['kind'], d[0], j, 'before it' if j < role else 'after it'),
+                            case, expected=d[1], observed=d[2])
+                return False
+        d = _obs_diff(fresh[0], st['later'], fields)
+        if d is not None:
+            ctx.violate('C01:instances:%s-leaks:%s' % (I_GROUP.get(st['kind'], st['kind']), name),
+                        'after changing one instance of %s (%s) a newly constructed instance differs in %s from one '
+                        'constructed before the change' % (name, st['kind'], d[0]),
+                        case, expected=d[1], observed=d[2])
+            return False
+        if st['shared'] and not shared_reported:
+            ctx.violate('C01:instances:shared-object:%s' % name,
+                        'after %s on one instance of %s: %s - a change made to it in place is a change of both' % (
+                            st['kind'], name, st['shared'][0]),
+                        case, expected='every instance holds field value objects of its own', observed=st['shared'][:4])
+            return False
+    return not shared_reported
+
+
+def _run_instances(ctx, rng, cls, info):
+    fields, name = info['fields'], info['name']
+    for role in ((0, 2) if ctx.tier == 'quick' else (0, 1, 2)):
+        res = _i_exec(cls, fields, role, None, rng)
+        ctx.case((name, 'instances', role, repr(res['stages'])))
+        ctx.count('instances:editor=%s' % ('first-created', 'middle', 'last-created')[role])
+        for st in res['stages']:
+            ctx.count('instances:stage:' + st['kind'])
+            for op in st['ops']:
+                ctx.count('instances-op:' + op[0])
+        ctx.count('instances:observations', 3 * len(res['steps']))
+        if not _i_judge(ctx, cls, info, role, res):
+            break       # class-level state may be changed for the rest of this process: one replay is enough
 
 
 def _registry_facts(ctx, snap):
@@ -808,6 +1070,7 @@ def run(ctx):
     for idx, (cls, info) in enumerate(snap):
         if info['malformed'] or not info['fields']:
             continue
+        _run_instances(ctx, ctx.rng('c01-instances/%s' % info['name']), cls, info)
         if idx in rsp:
             _run_cc(ctx, drv, ctx.rng('c01-cc/%s' % info['name']), idx, cls, info, idx in cc_full)
         fields = info['fields']
@@ -887,6 +1150,15 @@ def replay(ctx, v):
         print('  recorded: %s' % ' '.join(case['layout']))
         print('  here    : %s' % ' '.join(_layout(info['fields'])))
         return False
+    if case.get('op') == 'instances':
+        c2 = ctx.__class__('C01', 'quick', 0)
+        print('class %s: instances are independent (%d recorded stage(s))' % (info['name'], len(case['stages'])))
+        res = _i_exec(cls, info['fields'], case['role'], case['stages'])
+        _i_judge(c2, cls, info, case['role'], res, verbose=True)
+        for x in c2.violations:
+            print('  %s: %s' % (x['signature'], x['what']))
+            print('      expected %s, observed %s' % (str(x['expected'])[:200], str(x['observed'])[:300]))
+        return any(x['signature'] == v['signature'] for x in c2.violations)
     if case.get('op') == 'history':
         c2 = ctx.__class__('C01', 'quick', 0)
         print('class %s, one object: %s, then %d step(s)' % (
